@@ -415,6 +415,16 @@ func makeSampleDir(root string, s, nbytes int, seed uint64, lfsrOnly bool, dupNa
 			ext = ".dat"
 		}
 		name := fmt.Sprintf("sample_%03d%s", i, ext)
+		switch {
+		case s >= 7 && i == 3:
+			name = "sample 003 (copy)" + ext
+		case s >= 7 && i == 5:
+			name = "données_%d_100%" + ext
+		case s >= 7 && i == 6:
+			name = "样本.six" + ext
+		case s >= 7 && i == 2:
+			name = ".hidden" + ext
+		}
 		if dupNames && i%5 == 4 && i > 0 {
 			name = fmt.Sprintf("sample_%03d%s", i-1, map[bool]string{true: ".dat", false: ".bin"}[(i-1)%3 == 2])
 			sub = "dup" + fmt.Sprint(i)
@@ -747,7 +757,7 @@ func runC20(c *ev.Ctx) {
 		return
 	}
 	haveStrace := straceOK()
-	outs := []string{"", "out2e4", "./a/b/c", "ABS", "pre", "trail/"}
+	outs := []string{"", "out2e4", "./a/b/c", "ABS", "pre", "trail/", "my%20data%20set", "sp ace/näme-测试", "50%/25%d", "x/../y//z", "-dash"}
 	var cases []c20Case
 	r := gen.NewRng(gen.Mix(seed, 2020))
 	ss := []int{1, 2, 3, 17, 64, 300}
@@ -815,7 +825,7 @@ func runC20(c *ev.Ctx) {
 		}
 		argv = append(argv, exe, "-s", fmt.Sprint(cs.S), "-n", fmt.Sprint(cs.N))
 		if cs.Out != "" {
-			argv = append(argv, "-o", oArg)
+			argv = append(argv, "-o="+oArg)
 		}
 		if cs.Strace {
 			argv = append([]string{"strace", "-f", "-o", "/dev/null", "-e", "trace=write,openat", "-e", "inject=write:delay_exit=2000:when=3+", "-e", "inject=openat:delay_enter=1500:when=20+"}, argv...)
